@@ -643,6 +643,8 @@ class Interp:
                 return obj.attrs[a]
             f = self.p.resolve(obj.cls, a)
             if f is not None:
+                if f.is_property:
+                    return self.call_function(f, [obj], {}, depth + 1)
                 return f if f.is_static else BoundMethod(obj, f)
             c, expr = self.p.class_attr(obj.cls, a)
             if expr is not None:
